@@ -24,6 +24,7 @@
 #include <kernel/adjacency/permutation.hpp>
 
 #include <algorithm>
+#include <array>
 #include <set>
 #include <cmath>
 #include <dirent.h>
@@ -290,7 +291,7 @@ namespace
     MeshAtlas<Mesh_> atlas;
     RootMeshNode<Mesh_> node;
     PartitionSet ps;
-    const Atlas::ChartBase<Mesh_>* chart = nullptr;
+    Atlas::ChartBase<Mesh_>* chart = nullptr;
     std::string written, chart_text, what;
     bool ok = false;
     ChartHolder() : atlas(), node(nullptr, &atlas) {}
@@ -312,10 +313,11 @@ namespace
     }
   };
 
+  double g_near_tol = 1e-12;
   inline bool near(double a, double b)
   {
     if(!std::isfinite(a) || !std::isfinite(b)) return !std::isfinite(a) && !std::isfinite(b);
-    return std::fabs(a - b) <= 1e-12 * (1.0 + std::fabs(a));
+    return std::fabs(a - b) <= g_near_tol * (1.0 + std::fabs(a));
   }
 
   /// one chart given as XML text: write -> parse -> write byte-identical, same geometric object, expected parameter strings present
@@ -323,7 +325,7 @@ namespace
   void chart_case(verif::Ctx& c, const std::string& label, const std::string& chart_xml, const std::vector<std::string>& expect_substrings)
   {
     constexpr int wd = Mesh_::world_dim;
-    const std::string type = "conformal:hypercube:" + itos(wd) + ":" + itos(wd);
+    const std::string type = std::string("conformal:") + shape_word(typename Mesh_::ShapeType()) + ":" + itos(wd) + ":" + itos(wd);
     const std::string text = "<FeatMeshFile version=\"1\" mesh=\"" + type + "\">\n  <Chart name=\"c\">\n" + chart_xml + "  </Chart>\n</FeatMeshFile>\n";
     c.desc([&]{ return "chart family " + label + " | " + printable(chart_xml, 700); });
     const std::string key = "chart " + label;
@@ -342,53 +344,88 @@ namespace
     // generic (non-symmetric) probe points: dyadic ones hit exact ties of the nearest-point search (circle centre, points
     // equidistant from two curve segments) where rounding noise of 1e-17 in the rotation matrix legitimately flips the answer
     const double pts[6][3] = {{0.2371, 0.5113, 0.1297}, {1.5231, -0.7409, 0.4877}, {-0.5127, 0.1319, -1.0433}, {0.7591, 0.8647, 2.0179}, {2.0353, 1.0117, -0.2579}, {-1.2713, -1.4923, 0.3701}};
-    std::string diff;
-    const auto* sma = dynamic_cast<const Atlas::SurfaceMesh<Mesh_>*>(&a);
-    const auto* smb = dynamic_cast<const Atlas::SurfaceMesh<Mesh_>*>(&b);
-    if(sma != nullptr || smb != nullptr)
+    auto geom = [&](const Atlas::ChartBase<Mesh_>& a, const Atlas::ChartBase<Mesh_>& b) -> std::string
     {
-      // SurfaceMesh::project aborts for points whose foot point is in no triangle (not a parser matter): compare the triangulation itself
-      if(sma == nullptr || smb == nullptr) diff = "one chart is a SurfaceMesh, the other is not";
-      else
+      std::string diff;
+      const auto* sma = dynamic_cast<const Atlas::SurfaceMesh<Mesh_>*>(&a);
+      const auto* smb = dynamic_cast<const Atlas::SurfaceMesh<Mesh_>*>(&b);
+      std::vector<std::array<double, 3>> probes;
+      if(sma != nullptr || smb != nullptr)
       {
+        if(sma == nullptr || smb == nullptr) return "one chart is a SurfaceMesh, the other is not";
         const auto& ma = *sma->_surface_mesh; const auto& mb = *smb->_surface_mesh;
-        if(ma.get_num_entities(0) != mb.get_num_entities(0) || ma.get_num_entities(2) != mb.get_num_entities(2)) diff = "surface mesh sizes differ";
-        else
-        {
-          for(Index i = 0; i < ma.get_num_entities(0) && diff.empty(); ++i) for(int j = 0; j < 3; ++j) if(!near(ma.get_vertex_set()[i][j], mb.get_vertex_set()[i][j])) diff = "surface vertex " + itos((long long)i) + " differs";
-          const auto& ia = ma.template get_index_set<2, 0>(); const auto& ib = mb.template get_index_set<2, 0>();
-          for(Index i = 0; i < ia.get_num_entities() && diff.empty(); ++i) for(int j = 0; j < 3; ++j) if(ia[i][j] != ib[i][j]) diff = "surface triangle " + itos((long long)i) + " differs";
-        }
-        c.count("chart_probe_evaluations");
+        if(ma.get_num_entities(0) != mb.get_num_entities(0) || ma.get_num_entities(2) != mb.get_num_entities(2)) return "surface mesh sizes differ";
+        for(Index i = 0; i < ma.get_num_entities(0); ++i) for(int j = 0; j < 3; ++j) if(!near(ma.get_vertex_set()[i][j], mb.get_vertex_set()[i][j])) return "surface vertex " + itos((long long)i) + " differs";
+        const auto& ia = ma.template get_index_set<2, 0>(); const auto& ib = mb.template get_index_set<2, 0>();
+        for(Index i = 0; i < ia.get_num_entities(); ++i) for(int j = 0; j < 3; ++j) if(ia[i][j] != ib[i][j]) return "surface triangle " + itos((long long)i) + " differs";
+        // SurfaceMesh::project / dist abort (XASSERT in find_cell) even for points next to a triangle centroid: the point search of
+        // this chart is not a file-format matter; the triangulation itself was compared above (listed in spec.assumptions)
       }
-    }
-    for(int i = 0; i < 6 && diff.empty() && sma == nullptr; ++i)
-    {
-      WP p; for(int j = 0; j < wd; ++j) p[j] = pts[i][j];
-      const std::string ps = "(" + g6(pts[i][0]) + "," + g6(pts[i][1]) + (wd > 2 ? "," + g6(pts[i][2]) : "") + ")";
-      if(a.can_implicit())
-      {
-        WP qa = a.project(p), qb = b.project(p);
-        for(int j = 0; j < wd; ++j) if(!near(qa[j], qb[j])) diff = "project" + ps + " component " + itos(j) + ": " + std::to_string(qa[j]) + " vs " + std::to_string(qb[j]);
-        double da = a.dist(p), db = b.dist(p);
-        if(diff.empty() && !near(da, db)) diff = "dist" + ps + ": " + std::to_string(da) + " vs " + std::to_string(db);
-        double sa = a.signed_dist(p), sb = b.signed_dist(p);
-        if(diff.empty() && !near(sa, sb)) diff = "signed_dist" + ps + ": " + std::to_string(sa) + " vs " + std::to_string(sb);
-        c.count("chart_probe_evaluations", 3);
-      }
-    }
-    if(a.can_explicit() && b.can_explicit())
-    {
-      for(double t : {0.0, 0.5, 1.0, 1.75, 2.5})
+      else for(int i = 0; i < 6; ++i) probes.push_back({pts[i][0], pts[i][1], pts[i][2]});
+      for(auto& pr : probes)
       {
         if(!diff.empty()) break;
-        WP prm; for(int j = 0; j < wd; ++j) prm[j] = 0.0; prm[0] = t; if(wd > 2) prm[1] = 0.375;
-        WP qa = a.map(prm), qb = b.map(prm);
-        for(int j = 0; j < wd; ++j) if(!near(qa[j], qb[j])) diff = "map(" + g6(t) + ") component " + itos(j) + ": " + std::to_string(qa[j]) + " vs " + std::to_string(qb[j]);
-        c.count("chart_probe_evaluations");
+        WP p; for(int j = 0; j < wd; ++j) p[j] = pr[size_t(j)];
+        const std::string ps = "(" + g6(pr[0]) + "," + g6(pr[1]) + (wd > 2 ? "," + g6(pr[2]) : "") + ")";
+        if(a.can_implicit())
+        {
+          WP qa = a.project(p), qb = b.project(p);
+          for(int j = 0; j < wd; ++j) if(!near(qa[j], qb[j])) diff = "project" + ps + " component " + itos(j) + ": " + std::to_string(qa[j]) + " vs " + std::to_string(qb[j]);
+          double da = a.dist(p), db = b.dist(p);
+          if(diff.empty() && !near(da, db)) diff = "dist" + ps + ": " + std::to_string(da) + " vs " + std::to_string(db);
+          double sa = a.signed_dist(p), sb = b.signed_dist(p);
+          if(diff.empty() && !near(sa, sb)) diff = "signed_dist" + ps + ": " + std::to_string(sa) + " vs " + std::to_string(sb);
+          // the overloads that also return the gradient of the distance function
+          WP ga, gb, ha, hb;
+          double da2 = a.dist(p, ga), db2 = b.dist(p, gb);
+          double sa2 = a.signed_dist(p, ha), sb2 = b.signed_dist(p, hb);
+          if(diff.empty() && (!near(da2, db2) || !near(sa2, sb2))) diff = "dist/signed_dist with gradient at " + ps + " differ";
+          // (the two signed_dist overloads of Sphere disagree in sign on /repo - a geometry matter outside C11, reported separately -
+          //  so only the unsigned distance is cross-checked between the overloads)
+          if(diff.empty() && sma == nullptr && !near(da2, da)) diff = "dist(p, grad) disagrees with dist(p) of the same chart at " + ps;
+          for(int j = 0; j < wd && diff.empty(); ++j) if(!near(ga[j], gb[j]) || !near(ha[j], hb[j])) diff = "gradient of the distance at " + ps + " component " + itos(j) + " differs";
+          c.count("chart_probe_evaluations", 5);
+        }
       }
-    }
+      if(a.can_explicit() && b.can_explicit())
+      {
+        for(double t : {0.0, 0.5, 1.0, 1.75, 2.5})
+        {
+          if(!diff.empty()) break;
+          WP prm; for(int j = 0; j < wd; ++j) prm[j] = 0.0; prm[0] = t; if(wd > 2) prm[1] = 0.375;
+          WP qa = a.map(prm), qb = b.map(prm);
+          for(int j = 0; j < wd; ++j) if(!near(qa[j], qb[j])) diff = "map(" + g6(t) + ") component " + itos(j) + ": " + std::to_string(qa[j]) + " vs " + std::to_string(qb[j]);
+          c.count("chart_probe_evaluations");
+        }
+      }
+      if(diff.empty() && a.bytes() != b.bytes()) diff = "bytes() differ: " + itos((long long)a.bytes()) + " vs " + itos((long long)b.bytes());
+      return diff;
+    };
+    std::string diff = geom(a, b);
     c.check(diff.empty(), key + " :: geometry", [&]{ return "the re-parsed chart is a different geometric object: " + diff + " | first write '" + printable(h0.chart_text, 300) + "'"; });
+    // derived object: the transformed chart (rotation about an origin + offset) of the original and of the re-parsed chart
+    // are again the same object, and the transformed chart round-trips through the file format
+    {
+      WP org, ang, off;
+      const double o3[3] = {0.25, 0.5, 0.125}, a3[3] = {0.3, 0.2, 0.1}, f3[3] = {1.0, -2.0, 0.5};
+      for(int j = 0; j < wd; ++j) { org[j] = o3[j]; ang[j] = a3[j]; off[j] = f3[j]; }
+      h0.chart->transform(org, ang, off);
+      h1.chart->transform(org, ang, off);
+      std::string d2 = geom(*h0.chart, *h1.chart);
+      c.check(d2.empty(), key + " :: transformed-geometry", [&]{ return "after transform() the original and the re-parsed chart differ: " + d2; });
+      std::ostringstream t0; { MeshFileWriter w(t0); w.write(&h0.node, &h0.atlas, &h0.ps); }
+      ChartHolder<Mesh_> h2; h2.parse(t0.str());
+      if(c.check(h2.ok, key + " :: transformed-rejected", [&]{ return "the transformed chart is written in a form the reader rejects: " + h2.what + " | " + printable(t0.str(), 500); }))
+      {
+        c.check(h2.written == t0.str(), key + " :: transformed-roundtrip", [&]{ return "transformed chart: second write differs: '" + printable(t0.str(), 400) + "' vs '" + printable(h2.written, 400) + "'"; });
+        // the transformed parameters are no longer 6-digit numbers: equality to the printed precision only
+        g_near_tol = 1e-4;
+        std::string d3 = geom(*h0.chart, *h2.chart);
+        g_near_tol = 1e-12;
+        c.check(d3.empty(), key + " :: transformed-reparsed-geometry", [&]{ return "transformed chart differs from its re-parsed copy: " + d3; });
+      }
+      c.count("charts_transformed");
+    }
     c.outcome("chart family: " + std::string(a.get_type()));
     c.nontrivial(verif::Hash().str("chart").str(label).str(chart_xml).get());
   }
@@ -459,6 +496,9 @@ int main(int argc, char** argv)
     "B compares the parsed node with the ORIGINAL node, A compares parse(file) with parse(write(parse(file)))",
     "mesh parts whose name starts with '_' are documented as not exported and are excluded from the comparison",
     "property-map trees that the documented format cannot express (value containing '#', ending in '&', key containing '=' or '#', leading/trailing blanks, '[..]' look-alikes) are counted as excluded",
+    "not exercised (outside the file-format property): SurfaceMesh::project/dist/find_cell (abort for generic points; the triangulation is compared instead), Xml::DumpParser (debug printer), "
+    "String::pad_front/pad_back/replace_all/is_one_of/parse(bool)/stringify (general utilities), PartitionSet::find_partition (partition selection, C12), Graph::permute_indices (C19), Bezier construction setters, "
+    "TopoParseHelper<Shape,0> (unreachable 'thou shall not arrive here')",
     "there is no permutation serialisation API in the tree; E covers the two array representations (perm/swap) as the serialised forms"
   };
   spec.deadline_quick_s = 400; spec.deadline_thorough_s = 1500;
@@ -573,8 +613,11 @@ int main(int argc, char** argv)
     }
 
 
-    // ------------------------------------------------------------------ F: chart parameter families
+    // ------------------------------------------------------------------ F: chart parameter families (every chart kind x every legal mesh type)
+    auto chart_families = [&](auto tag2, auto tag3, const std::string& sfx)
     {
+      typedef typename std::remove_pointer<decltype(tag2)>::type M2;
+      typedef typename std::remove_pointer<decltype(tag3)>::type M3;
       auto attr_num = [](const char* n, std::initializer_list<double> v) { std::string s = std::string(n) + "=\""; bool f = true; for(double x : v) { s += (f ? "" : " ") + g6(x); f = false; } return s + "\""; };
       // ---- Circle
       const double radii[3] = {0.25, 1.0, 2.5};
@@ -584,14 +627,14 @@ int main(int argc, char** argv)
       {
         if(!c.want()) continue;
         std::string xml = "    <Circle " + attr_num("radius", {r}) + " " + attr_num("midpoint", {m[0], m[1]}) + (d[0] ? std::string(" domain=\"") + d + "\"" : std::string()) + " />\n";
-        chart_case<MeshH2>(c, "circle r=" + g6(r) + " mid=" + g6(m[0]) + "," + g6(m[1]) + " dom=" + d, xml, {attr_num("radius", {r}), attr_num("midpoint", {m[0], m[1]})});
+        chart_case<M2>(c, sfx + "circle r=" + g6(r) + " mid=" + g6(m[0]) + "," + g6(m[1]) + " dom=" + d, xml, {attr_num("radius", {r}), attr_num("midpoint", {m[0], m[1]})});
       }
       // ---- Sphere
       for(double r : radii) for(auto& m : mids)
       {
         if(!c.want()) continue;
         std::string xml = "    <Sphere " + attr_num("radius", {r}) + " " + attr_num("midpoint", {m[0], m[1], m[2]}) + " />\n";
-        chart_case<MeshH3>(c, "sphere r=" + g6(r) + " mid=" + g6(m[0]) + "," + g6(m[1]) + "," + g6(m[2]), xml, {attr_num("radius", {r}), attr_num("midpoint", {m[0], m[1], m[2]})});
+        chart_case<M3>(c, sfx + "sphere r=" + g6(r) + " mid=" + g6(m[0]) + "," + g6(m[1]) + "," + g6(m[2]), xml, {attr_num("radius", {r}), attr_num("midpoint", {m[0], m[1], m[2]})});
       }
       // ---- Bezier: 3 segments with the given numbers of control points; closed curves end in their first point
       auto bezier_xml = [&](bool closed, int ori, bool params, const int ctrl[3], const std::string& ind)
@@ -624,7 +667,7 @@ int main(int argc, char** argv)
       for(int closed = 0; closed < 2; ++closed) for(int ori : {0, 1, -1}) for(int params = 0; params < 2; ++params) for(auto& ct : ctrls)
       {
         if(!c.want()) continue;
-        chart_case<MeshH2>(c, std::string("bezier ") + (closed ? "closed" : "open") + " ori=" + itos(ori) + (params ? " params" : " noparams") + " ctrl=" + itos(ct[0]) + itos(ct[1]) + itos(ct[2]),
+        chart_case<M2>(c, sfx + std::string("bezier ") + (closed ? "closed" : "open") + " ori=" + itos(ori) + (params ? " params" : " noparams") + " ctrl=" + itos(ct[0]) + itos(ct[1]) + itos(ct[2]),
           bezier_xml(closed != 0, ori, params != 0, ct, "    "), {});
       }
       // ---- SurfaceMesh
@@ -634,7 +677,7 @@ int main(int argc, char** argv)
           "    <SurfaceMesh verts=\"4\" trias=\"2\">\n      <Vertices>\n        0 0 0\n        1 0 0\n        0 1 0\n        1 1 0.5\n      </Vertices>\n      <Triangles>\n        0 1 2\n        1 3 2\n      </Triangles>\n    </SurfaceMesh>\n",
           "    <SurfaceMesh verts=\"4\" trias=\"4\">\n      <Vertices>\n        0 0 0\n        1 0 0\n        0 1 0\n        0 0 1\n      </Vertices>\n      <Triangles>\n        0 2 1\n        0 1 3\n        1 2 3\n        0 3 2\n      </Triangles>\n    </SurfaceMesh>\n",
           "    <SurfaceMesh verts=\"4\" trias=\"2\">\n      <Vertices>\n        0.1 0.2 0.3\n        1.7 -0.3 0.1\n        -0.4 1.3 0\n        1.1 1.2 0.7\n      </Vertices>\n      <Triangles>\n        2 0 1\n        2 1 3\n      </Triangles>\n    </SurfaceMesh>\n"};
-        for(int i = 0; i < 4; ++i) { if(!c.want()) continue; chart_case<MeshH3>(c, "surfacemesh variant " + itos(i), sms[i], {}); }
+        for(int i = 0; i < 4; ++i) { if(!c.want()) continue; chart_case<M3>(c, sfx + "surfacemesh variant " + itos(i), sms[i], {}); }
       }
       // ---- Extrude: angles (yaw, pitch, roll) in revolutions over a grid that contains both gimbal-lock pitches
       {
@@ -655,11 +698,36 @@ int main(int argc, char** argv)
             if(!c.want()) continue;
             const bool any = (ay != 0.0 || ap != 0.0 || ar != 0.0);
             std::string xml = std::string("    <Extrude") + oo.attrs + (any ? " " + attr_num("angles", {ay, ap, ar}) : std::string()) + ">\n" + inner[in] + "    </Extrude>\n";
-            chart_case<MeshH3>(c, std::string("extrude/") + inner_name[in] + " " + oo.name + " angles=" + g6(ay) + "," + g6(ap) + "," + g6(ar), xml, oo.expect);
+            chart_case<M3>(c, sfx + std::string("extrude/") + inner_name[in] + " " + oo.name + " angles=" + g6(ay) + "," + g6(ap) + "," + g6(ar), xml, oo.expect);
           }
       }
+    };
+    chart_families((MeshH2*)nullptr, (MeshH3*)nullptr, std::string());
+    chart_families((MeshS2*)nullptr, (MeshS3*)nullptr, std::string("simplex "));
+    // chart kinds that do not exist for the dimension of the mesh must be refused
+    {
+      struct Ill { const char* type; const char* kind; const char* xml; };
+      const char* circle = "    <Circle radius=\"1\" midpoint=\"0 0\" />\n";
+      const char* bezier = "    <Bezier dim=\"2\" size=\"2\" type=\"open\">\n      <Points>\n        0 0 0\n        0 1 0\n      </Points>\n    </Bezier>\n";
+      const char* sphere = "    <Sphere radius=\"1\" midpoint=\"0 0 0\" />\n";
+      const char* surf = "    <SurfaceMesh verts=\"3\" trias=\"1\">\n      <Vertices>\n        0 0 0\n        1 0 0\n        0 1 0\n      </Vertices>\n      <Triangles>\n        0 1 2\n      </Triangles>\n    </SurfaceMesh>\n";
+      const std::string extr = std::string("    <Extrude>\n  ") + circle + "    </Extrude>\n";
+      const std::vector<Ill> ills = {
+        {"conformal:hypercube:1:1", "Circle", circle}, {"conformal:hypercube:1:1", "Bezier", bezier}, {"conformal:hypercube:1:1", "Sphere", sphere}, {"conformal:hypercube:1:1", "SurfaceMesh", surf}, {"conformal:hypercube:1:1", "Extrude", extr.c_str()},
+        {"conformal:hypercube:2:2", "Sphere", sphere}, {"conformal:hypercube:2:2", "SurfaceMesh", surf}, {"conformal:hypercube:2:2", "Extrude", extr.c_str()},
+        {"conformal:simplex:2:2", "Sphere", sphere}, {"conformal:simplex:2:2", "SurfaceMesh", surf}, {"conformal:simplex:2:2", "Extrude", extr.c_str()},
+        {"conformal:hypercube:3:3", "Circle", circle}, {"conformal:hypercube:3:3", "Bezier", bezier}, {"conformal:simplex:3:3", "Circle", circle}, {"conformal:simplex:3:3", "Bezier", bezier}};
+      for(auto& il : ills)
+      {
+        if(!c.want()) continue;
+        const std::string text = std::string("<FeatMeshFile version=\"1\" mesh=\"") + il.type + "\">\n  <Chart name=\"c\">\n" + il.xml + "  </Chart>\n</FeatMeshFile>\n";
+        c.desc([&]{ return std::string("chart kind ") + il.kind + " in a file of mesh type " + il.type; });
+        Parsed p = parse_mesh(text, il.type, true, false);
+        c.check(p.kind == K_GRAMMAR, std::string("chart ") + il.kind + " in " + il.type + " :: accepted", [&]{ return std::string("a chart kind that does not exist for this dimension must be refused with Xml::GrammarError, got ") + kind_name(p.kind) + " " + p.what; });
+        c.outcome("chart kind refused for dimension");
+        c.nontrivial(verif::Hash().str("ill").str(il.type).str(il.kind).get());
+      }
     }
-
 
     // ------------------------------------------------------------------ G: several files into one node / atlas, block orders, re-parsing
     for(const SeedModel& sm : seeds)
@@ -763,6 +831,42 @@ int main(int argc, char** argv)
         c.outcome("merge: parsed twice");
         c.nontrivial(verif::Hash().str("G3").str(sm.name).pod(mode).get());
       }
+      // adaption: every mesh part that is linked to a chart is projected onto it; the node parsed from the seed and the node
+      // parsed from the written seed must adapt identically, and the adapted node must round-trip
+      // (adapt needs a mesh; SurfaceMesh adaption aborts on /repo - inverted assertion in SurfaceMesh::find_cell, reported separately)
+      bool adaptable = false, has_surface = T.find("<SurfaceMesh") != std::string::npos;
+      for(auto& b : blks) if(b.tag == "Mesh") adaptable = true;
+      if(c.want())
+      {
+       if(!adaptable || has_surface) { c.desc([&]{ return "seed " + sm.name + " adaption"; }); c.excluded(has_surface ? "adaption by a SurfaceMesh chart (aborts in SurfaceMesh::find_cell)" : "adaption of a node without mesh"); }
+       else
+       {
+        c.desc([&]{ return "seed " + sm.name + " adapted by its charts (RootMeshNode::adapt) before and after a write/parse cycle"; });
+        const std::string key = "adapt " + sm.name;
+        AdaptResult r0 = parse_adapt(T, sm.default_type);
+        if(c.check(r0.kind == K_OK, key + " :: failed", [&]{ return std::string(kind_name(r0.kind)) + " " + r0.what; }))
+        {
+          AdaptResult r1 = parse_adapt(ref.written, sm.default_type);
+          c.check(r1.kind == K_OK && r1.canon_after == r0.canon_after, key + " :: differs", [&]{ return "the re-parsed node adapts differently: " + printable(r1.canon_after, 600) + " vs " + printable(r0.canon_after, 600); });
+          Parsed pa = parse_mesh(r0.written_after, sm.default_type, true, true);
+          c.check(pa.kind == K_OK && pa.written == r0.written_after && pa.canon == r0.canon_after, key + " :: roundtrip", "the adapted node does not round-trip");
+          if(r0.canon_after != r0.canon_before) c.count("seeds_moved_by_adaption");
+          // what read_root_markup reports about the file
+          const bool has_attr = T.find("mesh=\"") != std::string::npos && T.find("mesh=\"") < T.find('\n');
+          if(has_attr)
+          {
+            const bool simplex = sm.default_type.find("simplex") != std::string::npos;
+            const int sd = std::atoi(sm.default_type.substr(sm.default_type.size() - 3, 1).c_str());
+            c.check(r0.mesh_type == int(MeshFileReader::MeshType::conformal) && r0.shape_type == int(simplex ? MeshFileReader::ShapeType::simplex : MeshFileReader::ShapeType::hypercube) && r0.shape_dim == sd && r0.world_dim == sd,
+              key + " :: root-getters", [&]{ return "get_mesh_type/get_shape_type/get_shape_dim/get_world_dim = " + itos(r0.mesh_type) + "/" + itos(r0.shape_type) + "/" + itos(r0.shape_dim) + "/" + itos(r0.world_dim) + " for " + sm.default_type; });
+          }
+          else
+            c.check(r0.mesh_type == int(MeshFileReader::MeshType::unknown) && r0.shape_type == int(MeshFileReader::ShapeType::unknown) && r0.shape_dim == 0 && r0.world_dim == 0, key + " :: root-getters", "getters of a file without mesh attribute must report 'unknown'");
+        }
+        c.outcome("adapt");
+        c.nontrivial(verif::Hash().str("adapt").str(sm.name).get());
+       }
+      }
       // I: unusual overloads on the seed: partitions ignored (nullptr), unique_ptr-returning parse, file based reading
       if(c.want())
       {
@@ -784,6 +888,46 @@ int main(int argc, char** argv)
         c.check(k2 == K_FILE, key + " :: missing-file", [&]{ return std::string("missing mesh file must raise FileError, got ") + kind_name(k2) + " " + w2; });
         c.outcome("overloads");
         c.nontrivial(verif::Hash().str("I").str(sm.name).get());
+      }
+    }
+
+    // adaption variants that no seed has as such: a Bezier chart without parameters (implicit projection of the mesh part) and an
+    // Extrude chart linked to a mesh part of a 3D mesh
+    {
+      std::vector<std::pair<std::string, std::pair<std::string, std::string>>> variants;   // label -> (type, text)
+      for(const SeedModel& sm : seeds)
+      {
+        if(sm.name == "tria2d")
+        {
+          std::string t = sm.text; size_t a = t.find("      <Params>"), b = t.find("</Params>\n");
+          if(a != std::string::npos && b != std::string::npos) { t.erase(a, b + 10 - a); variants.push_back({"tria2d without <Params> (implicit Bezier projection)", {sm.default_type, t}}); }
+        }
+        if(sm.name == "hexa3d")
+        {
+          std::string t = sm.text; const std::string sp = "    <Sphere radius=\"0.25\" midpoint=\"0.5 0.5 0.5\"/>\n"; size_t a = t.find(sp);
+          if(a != std::string::npos)
+          {
+            std::string t1 = t; t1.replace(a, sp.size(), "    <Extrude origin=\"0.5 0.5\" offset=\"0.5 0.5 0\">\n      <Circle radius=\"0.25\" midpoint=\"0.5 0.5\" />\n    </Extrude>\n");
+            variants.push_back({"hexa3d with an Extrude(Circle) chart", {sm.default_type, t1}});
+            std::string t2 = t; t2.replace(a, sp.size(), "    <Extrude angles=\"0.125 0 0\">\n      <Bezier dim=\"2\" size=\"3\" type=\"open\">\n        <Points>\n          0 -1 0.25\n          1 0.5 0.5 1 0.25\n          0 2 0.75\n        </Points>\n      </Bezier>\n    </Extrude>\n");
+            variants.push_back({"hexa3d with an Extrude(Bezier) chart", {sm.default_type, t2}});
+          }
+        }
+      }
+      for(auto& v : variants)
+      {
+        if(!c.want()) continue;
+        c.desc([&]{ return "adaption variant: " + v.first; });
+        const std::string key = "adapt " + v.first;
+        Parsed ref = parse_mesh(v.second.second, v.second.first, true, true);
+        if(!c.check(ref.kind == K_OK, key + " :: rejected", [&]{ return std::string(kind_name(ref.kind)) + " " + ref.what; })) continue;
+        AdaptResult r0 = parse_adapt(v.second.second, v.second.first), r1 = parse_adapt(ref.written, v.second.first);
+        c.check(r0.kind == K_OK && r1.kind == K_OK && r0.canon_after == r1.canon_after, key + " :: differs", [&]{ return std::string("the re-parsed node adapts differently or adaption failed: ") + kind_name(r0.kind) + " " + r0.what + " / " + kind_name(r1.kind) + " " + r1.what; });
+        c.check(r0.canon_after != r0.canon_before, key + " :: no-effect", "the adaption did not move any vertex of the linked mesh part");
+        Parsed pa = parse_mesh(r0.written_after, v.second.first, true, true);
+        c.check(pa.kind == K_OK && pa.written == r0.written_after && pa.canon == r0.canon_after, key + " :: roundtrip", "the adapted node does not round-trip");
+        c.outcome("adapt variant");
+        c.nontrivial(verif::Hash().str("adaptv").str(v.first).get());
       }
     }
 
@@ -851,6 +995,67 @@ int main(int argc, char** argv)
         c.check(pm_canon(pb) == b_before && pm_canon(pb) == mcanon(mb, 0), key + " :: source-changed", "the source map was modified");
         c.outcome("ini: merge");
         c.nontrivial(verif::Hash().str("H").pod(ia).pod(ib).pod(replace).pod(route).get());
+      }
+      // accessors of a parsed map against the model: query (paths, '!' root, '~' parent, case-insensitive), get_entry, get_sub_section,
+      // query_section, erase_entry, erase_section
+      for(size_t it = 0; it < trees.size(); ++it)
+      {
+        if(!c.want()) continue;
+        c.desc([&]{ return "property map tree #" + itos((long long)it) + ": queries and erasure after dump/parse"; });
+        const std::string key = "property-map query #" + itos((long long)it);
+        PropertyMap src; build(src, trees[it]);
+        std::ostringstream o0; src.write(o0);
+        PropertyMap pm; { std::istringstream is(o0.str()); pm.read(is, true); }
+        Model m; for(auto& e : trees[it]) put(m, e.path, e.key, e.val, true);
+        // every entry through its full path, in upper case, from the root marker, and relative to its section
+        for(auto& e : trees[it])
+        {
+          if(e.key.empty()) continue;
+          const std::string full = (e.path.empty() ? "" : e.path + "/") + e.key;
+          // the value the model holds (a later entry of the same key in the tree overrides)
+          const Model* mm = &m; std::string pth = e.path;
+          while(!pth.empty()) { size_t p = pth.find('/'); mm = mm->sec.at(lower_(pth.substr(0, p))).second.get(); pth = (p == std::string::npos ? std::string() : pth.substr(p + 1)); }
+          const std::string want = mm->ent.at(lower_(e.key)).second;
+          auto q1 = pm.query(String(full));
+          c.check(q1.second && std::string(q1.first) == want, key + " :: query " + full, [&]{ return "query('" + full + "') = '" + std::string(q1.first) + "' found=" + itos(q1.second) + ", expected '" + want + "'"; });
+          std::string up = full; for(auto& ch : up) ch = char(std::toupper((unsigned char)ch));
+          auto q2 = pm.query(String(up));
+          c.check(q2.second && std::string(q2.first) == want, key + " :: query-uppercase " + full, "keys and section names are case-insensitive");
+          auto q3 = pm.query(String("!/" + full));
+          c.check(q3.second && std::string(q3.first) == want, key + " :: query-root " + full, "'!' denotes the root section");
+          c.check(std::string(pm.query(String(full), String("dflt"))) == want && std::string(pm.query(String(full + "x"), String("dflt"))) == "dflt", key + " :: query-default " + full, "query with default value");
+          if(!e.path.empty())
+          {
+            const PropertyMap* sec = pm.query_section(String(e.path));
+            if(c.check(sec != nullptr, key + " :: query_section " + e.path, "section not found"))
+            {
+              auto g = sec->get_entry(String(e.key));
+              c.check(g.second && std::string(g.first) == want, key + " :: get_entry " + full, "get_entry of the section differs");
+              auto q4 = sec->query(String("~/" + e.path.substr(e.path.rfind('/') == std::string::npos ? 0 : e.path.rfind('/') + 1) + "/" + e.key));
+              c.check(q4.second && std::string(q4.first) == want, key + " :: query-parent " + full, "'~' denotes the parent section");
+              c.check(sec->get_root() == &pm, key + " :: get_root " + e.path, "get_root of a sub-section is not the map");
+            }
+          }
+          c.count("property_map_queries", 6);
+        }
+        c.check(!pm.query(String("no/such/key")).second && pm.query_section(String("nosuch")) == nullptr && pm.get_sub_section(String("nosuch")) == nullptr && !pm.get_entry(String("nosuch")).second, key + " :: absent", "absent keys / sections must not be found");
+        // erasure: remove every entry / section of the model one at a time, compare with the model, dump/parse again
+        for(auto& e : trees[it])
+        {
+          PropertyMap q; { std::istringstream is(o0.str()); q.read(is, true); }
+          Model mq; for(auto& x : trees[it]) put(mq, x.path, x.key, x.val, true);
+          PropertyMap* sec = e.path.empty() ? &q : q.query_section(String(e.path));
+          Model* ms = &mq; std::string pth = e.path; Model* parent = nullptr; std::string last;
+          while(!pth.empty()) { size_t p = pth.find('/'); parent = ms; last = lower_(pth.substr(0, p)); ms = ms->sec.at(last).second.get(); pth = (p == std::string::npos ? std::string() : pth.substr(p + 1)); }
+          bool ok = true;
+          if(!e.key.empty()) { ok = sec && sec->erase_entry(String(e.key)) && !sec->erase_entry(String(e.key)); ms->ent.erase(lower_(e.key)); }
+          else if(parent) { PropertyMap* ps = (e.path.find('/') == std::string::npos) ? &q : q.query_section(String(e.path.substr(0, e.path.rfind('/')))); ok = ps && ps->erase_section(String(last)) && !ps->erase_section(String(last)); parent->sec.erase(last); }
+          c.check(ok && pm_canon(q) == mcanon(mq, 0), key + " :: erase " + e.path + "/" + e.key, [&]{ return "after erasure: " + printable(pm_canon(q)) + " expected " + printable(mcanon(mq, 0)); });
+          std::ostringstream o1; q.write(o1); ParsedIni pi = parse_ini(o1.str());
+          c.check(pi.kind == K_OK && pi.canon == mcanon(mq, 0), key + " :: erase-roundtrip " + e.path + "/" + e.key, "map after erasure does not round-trip");
+        }
+        c.outcome("ini: queries");
+        c.nontrivial(verif::Hash().str("Hq").pod(it).get());
       }
       // file based overloads
       if(c.want())
@@ -975,6 +1180,26 @@ int main(int argc, char** argv)
           c.check(mv.serialize() == buf, key + " :: move-ctor", "move-constructed graph serialises differently");
           Graph ma; ma = std::move(mv);
           c.check(ma.serialize() == buf, key + " :: move-assign", "move-assigned graph serialises differently");
+          {
+            Graph cg = g.clone(); cg.clear();
+            Graph dflt;
+            c.check(cg.serialize() == dflt.serialize() && cg.get_num_nodes_domain() == 0 && cg.get_num_nodes_image() == 0, key + " :: clear", "a cleared graph does not serialise like an empty graph");
+          }
+          if(g.get_num_nodes_domain() > 0 && g.get_num_nodes_image() > 0)
+          {
+            // derived object: the permuted graph (reversal permutations) serialises / deserialises identically and has the permuted adjacency
+            std::vector<Index> pd(g.get_num_nodes_domain()), pi(g.get_num_nodes_image());
+            for(Index i = 0; i < pd.size(); ++i) pd[i] = Index(pd.size()) - 1 - i;
+            for(Index i = 0; i < pi.size(); ++i) pi[i] = Index(pi.size()) - 1 - i;
+            Adjacency::Permutation permd(Index(pd.size()), Adjacency::Permutation::ConstrType::perm, pd.data()), permi(Index(pi.size()), Adjacency::Permutation::ConstrType::perm, pi.data());
+            Graph gp(g, permd, permi);
+            std::vector<char> bp = gp.serialize(); Graph hp(bp);
+            bool okp = (hp.serialize() == bp) && gp.get_num_indices() == g.get_num_indices();
+            std::multiset<std::pair<Index, Index>> ea, eb;
+            for(Index i = 0; i < g.get_num_nodes_domain(); ++i) for(Index k = g.get_domain_ptr()[i]; k < g.get_domain_ptr()[i + 1]; ++k) ea.insert({pd[i], pi[g.get_image_idx()[k]]});
+            for(Index i = 0; i < gp.get_num_nodes_domain(); ++i) for(Index k = gp.get_domain_ptr()[i]; k < gp.get_domain_ptr()[i + 1]; ++k) eb.insert({i, gp.get_image_idx()[k]});
+            c.check(okp && ea == eb, key + " :: permuted", "permuted graph does not serialise identically or is not the permuted adjacency");
+          }
           Graph into(h.serialize());            // deserialise a second time, then overwrite an existing non-empty graph
           Graph other(Index(2), Index(2), Index(0)); other = std::move(into);
           c.check(other.serialize() == buf, key + " :: assign-into-filled", "graph assigned into an existing graph serialises differently");
